@@ -75,8 +75,12 @@ def violates_legs(t0, t1, max_dt, ts, legs):
 
 
 def violates_float(t0, t1, max_dt, dts):
+    import math
+
     delta = t1 - t0
-    eps = 1e-12 * max(1.0, abs(t0), abs(t1))
+    # a few spacings of the representable times involved (the property speaks of "moderate" magnitudes, where 1e-9 s
+    # exceeds that spacing); a tolerance proportional to 1e-12 |t| would hide nanosecond-level drift at t ~ 1e5
+    eps = 8 * math.ulp(max(1.0, abs(t0), abs(t1)))
     probs = []
     if delta == 0 and dts:
         probs.append("steps taken although the times coincide")
@@ -85,8 +89,8 @@ def violates_float(t0, t1, max_dt, dts):
             probs.append(f"step {d} points against the direction of travel {delta}")
         if abs(d) > max_dt * (1 + 1e-9) + eps:
             probs.append(f"step {d} longer than max_dt {max_dt}")
-    if abs(sum(dts) - delta) > TOL + eps:
-        probs.append(f"steps sum to {sum(dts)} but the time difference is {delta}")
+    if abs(math.fsum(dts) - delta) > TOL + eps:
+        probs.append(f"steps sum to {math.fsum(dts)!r} but the time difference is {delta!r}")
     return probs
 
 
@@ -262,6 +266,49 @@ def py_task_two_ticks(K, tier, seed):
     return part.d
 
 
+def long_run_task(tier, seed):
+    """Long moves at large (but moderate) clock values, in floats: hundreds to thousands of maximum-length steps from
+    t ~ 1e5 .. 1e6 s.  The solver clauses are exact-real and bounded by K full steps; what can only go wrong in doubles
+    over many steps (accumulated drift of an iterated `t += max_dt`) is replayed here on the real runtimes."""
+    import math
+    import random
+
+    part = Part()
+    part.program("runtime")
+    part.fn("runtime.ManagedFilter.tick", "runtime.ManagedFilter._process_model", "ManagedFilter::processUpdate")
+    rng = random.Random(seed + 5)
+    cases = [(100000.0, 60.0, 0.1), (250000.0, 10.0, 0.01), (-131072.5, 25.0, 0.05), (1000000.0, 12.5, 0.025)]
+    if tier != "quick":
+        cases += [(86400.0 * 30, 30.0, 0.1), (65536.0, 100.0, 1.0 / 30.0), (3.0e5, 7.0, 0.007)]
+    for t0, span, md in cases:
+        for sign in (1.0, -1.0):
+            t1 = t0 + sign * (span + rng.randint(1, 7) / 8.0 * md)
+            key = f"long-run/py/t0={t0}/span={sign * span}/max_dt={md}"
+            legs = float_steps(t0, t1, md)
+            probs = violates_legs(t0, t1, md, (), legs)
+            part.record(Q("sat" if probs else "unsat", None, 0.0, ""), f"{key}: {sum(len(l) for l in legs)} steps: direction, length and sum within 1e-9 (concrete replay)")
+            if probs:
+                path = write_replay(PID, {"key": key, "info": {"kind": "py-long"}, "inputs": {"t0": t0, "t1": t1, "max_dt": md}, "problems": probs[:5], "n_steps": sum(len(l) for l in legs)})
+                part.violation(key, f"Python runtime: t0={t0} -> t1={t1} max_dt={md}: {probs[0]}", path)
+                return part.d
+    try:
+        from . import c10_cpp
+    except ImportError:
+        return part.d
+    for t0, span, md in cases[:2] if tier == "quick" else cases[:5]:
+        for sign in (1.0, -1.0):
+            t1 = t0 + sign * (span + 0.375 * md)
+            key = f"long-run/cpp/t0={t0}/span={sign * span}/max_dt={md}"
+            legs = c10_cpp.float_steps_cpp(True, True, md, t0, t1)
+            probs = violates_legs(t0, t1, md, (), legs)
+            part.record(Q("sat" if probs else "unsat", None, 0.0, ""), f"{key}: {sum(len(l) for l in legs)} steps: direction, length and sum within 1e-9 (concrete replay)")
+            if probs:
+                path = write_replay(PID, {"key": key, "info": {"kind": "cpp-long", "control": True, "cal": True, "max_dt": md}, "inputs": {"t0": t0, "t1": t1}, "problems": probs[:5]})
+                part.violation(key, f"C++ runtime: t0={t0} -> t1={t1} max_dt={md}: {probs[0]}", path)
+                return part.d
+    return part.d
+
+
 def _dispatch(fn, args):
     return fn(*args)
 
@@ -280,6 +327,7 @@ def run(tier, seed):
     from . import cfgrb
 
     tasks += [(cfgrb.task, (PID, *c, tier, seed)) for c in cfgrb.combos(tier)]
+    tasks.append((long_run_task, (tier, seed)))
     for d in pmap(_dispatch, tasks):
         rep.merge(d)
     rep.bounds = {"K_full_steps": K, "covered_region": f"|t1 - t0| < {K + 1} * max_dt (leaves beyond are cut and counted)", "max_dt": "Python: symbolic in [1e-9, 10]; C++: enumerated constants", "times": "symbolic in [-1000, 1000]", "histories": "held time is symbolic: one tick from an arbitrary held time covers any sequence of ticks"}
@@ -313,7 +361,16 @@ def replay(path):
         print(got, probs)
         print("REPRODUCED" if probs else "not reproduced")
         return 1 if probs else 0
-    if r["info"]["kind"] != "py":
+    if r["info"]["kind"] == "cpp-long":
+        from . import c10_cpp
+
+        e, i = r["inputs"], r["info"]
+        legs = c10_cpp.float_steps_cpp(i["control"], i["cal"], i["max_dt"], e["t0"], e["t1"])
+        probs = violates_legs(e["t0"], e["t1"], i["max_dt"], (), legs)
+        print(probs[:3])
+        print("REPRODUCED" if probs else "not reproduced")
+        return 1 if probs else 0
+    if r["info"]["kind"] not in ("py", "py-long"):
         from . import c10_cpp
 
         return c10_cpp.replay(r)
@@ -325,7 +382,7 @@ def replay(path):
         print(f"REPRODUCED: raises {type(ex).__name__}: {ex}")
         return 1
     probs = violates_legs(e["t0"], e["t1"], e["max_dt"], tsf, got)
-    print("steps", got)
+    print("steps", str(got)[:2000])
     if probs:
         print("REPRODUCED:", probs)
         return 1
